@@ -703,6 +703,11 @@ where
 
         if pos >= 0 && pos < (self.get_buf().len() as i64) {
             // position reachable within buffer -> no actual seeking necessary
+            if self.get_buf().len() < self.buf_reader.capacity() {
+                // The buffer may be incomplete because an earlier read failed. Since a
+                // partly filled buffer is taken for the end of the input, complete it first.
+                fill_buf(&mut self.buf_reader)?;
+            }
             self.position = to.clone();
             self.incomplete_pos = None;
             self.state = State::Positioned;
